@@ -3,10 +3,12 @@
    (the tokenizer over a model of bufio.Reader; the parser over the precomputed list of Next() results); the correspondence
    check (lib/front.py, check_c10) compares their result with the implementation's on every input and evaluates the
    property directly.  Termination of the MODEL is by construction (structural recursion on fuel); that the fuel the
-   driver passes suffices is observed on every run (no FUEL outcome), not yet proved.  Proved so far - the tokenizer's
-   behaviour on the token classes the top-level loop dispatches on (for every amount of leading horizontal whitespace): *)
-Require Import Bebop.front.Tok Bebop.front.TokInv.
-From Coq Require Import List.
+   driver passes suffices is observed on every run (no FUEL outcome), not yet proved.  Proved: (1) C10_no_panic - for EVERY
+   input and whether or not the reader fails, neither a Next() call nor ReadFile panics (every UnreadByte follows a
+   successful ReadByte; a negative shift count is an error); (2) C10_partial - the tokenizer's behaviour on the token classes
+   the top-level loop dispatches on (for every amount of leading horizontal whitespace). *)
+Require Import Bebop.front.Tok Bebop.front.TokInv Bebop.front.Parse Bebop.front.TokSafe Bebop.front.ParseSafe.
+From Coq Require Import List NArith.
 Import ListNotations.
 
 Definition C10_partial_statement : Prop :=
@@ -21,3 +23,15 @@ Definition C10_partial_statement : Prop :=
 Theorem C10_partial : C10_partial_statement.
 Proof. split; [exact next_term1|exact next_word]. Qed.
 Print Assumptions C10_partial.
+
+Definition C10_no_panic_statement : Prop :=
+  (forall s, next s <> RPanic) /\ (forall input fails, read_file input fails <> PPanic).
+Theorem C10_no_panic : C10_no_panic_statement.
+Proof. exact (conj next_never_panics read_file_never_panics). Qed.
+
+(* the two inputs on which the code did panic before the repairs (be3f98d, 8cda268) are errors now *)
+Example C10_former_panics :
+  (exists r, read_file [] true = r /\ r = PErr) /\
+  read_file [91;102;108;97;103;115;93;32;101;110;117;109;32;69;58;105;110;116;51;50;32;123;65;32;61;32;49;32;60;60;32;45;49;59;125]%N false = PErr.
+Proof. split; [eexists; split; [reflexivity|vm_compute; reflexivity]|vm_compute; reflexivity]. Qed.
+Print Assumptions C10_no_panic.
